@@ -48,7 +48,7 @@ FAMILIES = {
         rule='queues holding 0-4 unrelated events before/after the awaited child on the same/other buses, external dispatch during the window; '
              'non-trivial: an in-handler await occurs while another event is queued somewhere'),
     'C06': dict(
-        gens=[('core', dict(nb=(2, 3)), 0.45), ('stop', dict(p_cancel=0.1), 0.1), ('core', dict(nb=(2, 3), p_timeout=0.6, p_cleanup=0.6, proglen=(1, 5)), 0.3),
+        gens=[('core', dict(nb=(2, 3)), 0.35), ('stop', dict(p_cancel=0.1), 0.2), ('core', dict(nb=(2, 3), p_timeout=0.6, p_cleanup=0.6, proglen=(1, 5)), 0.3),
               ('core', dict(nb=(2, 3), p_parallel=0.7, p_dupnames=1.0, nh=(3, 8), p_sync=0.05, p_wild=0.4, proglen=(1, 5)), 0.15)],
         facets=CORE + ['lock', 'await', 'timeout'],
         rule='2-3 buses, first use of a bus from main code / from inside a handler / inside an awaited child, long handlers; '
